@@ -48,6 +48,20 @@ def fmt_call(r):
     ty = r.choice(["", "", "ascii", "braille"])
     return 'format(%s"%s"%s)' % (ty, t, "".join(", " + p for p in ps))
 
+def script_cmds(r, k):
+    return ["msgbox(%s)" % lit(r), "msgbox(%s, MSGBOX_X)" % fmt_call(r), "applymovement(1, moves(walk_up * 2 face_left))", "setvar(VAR_A, 0x1f)", "cmd(global)", "cmd(local)",
+            "goto_if_set(FLAG_A, X%d_L)" % k, "getpricereduction(POKENEWS_LILYCOVE)", "warpmuted(MAP_X, 1, 2)", "cmdD8", "checkmonobedience(VAR_0x8004)", "setmonobedient(VAR_0x8004)", "mossdeepgym1(2)", "faceplayer", "waitstate", "closemessage", "playse(SE_DOOR)", "call(Common_Reward)", "goto(Ext_L)", "random(3)", "special(Foo)", "call(X%d_0)" % k, "two(%s, %s)" % (lit(r), lit(r)), "price(PRICE_OF(ITEM_A, 2), %s)" % lit(r), "mv(OBJ(1, MAP_X), moves(walk_up * 2 face_left))",
+            "goto_if_unset(FLAG_B, Ext_L)", "setvar(VAR_A, BASE-1)", "addvar(VAR_A, 10-3)", "setvar(VAR_MASK, FLAG_A|~FLAG_B)", "setvar(VAR_MASK, FLAG_A | ~FLAG_B)", "setvar(V, BASE--OFFSET)", "setvar(V, BASE - -OFFSET)", "setvar(V, 1<<4, A>>B, X<-1)", "debuglog(\"Welcome!\" ascii\"shop: welcome\") msgbox(\"Welcome!\")", "applymovement(2, moves(walk_up * 2) moves(face_down)) applymovement(3, moves(walk_up * 2))", "END", "Return(5)", "loadword(0, \"shared\" + 2)", "loadword(0, \"Welcome!\" + 2) msgbox(\"Welcome!\")",
+            "setobjectxyperm(LOCALID, 7 -3)", "loadbytes(TABLE_BASE -2 -1 4, (ROW) -1)", "setshopkind(mart, 2)", "initshop(mart(SHOP_ID), text, 1)", "multichoice(0, 0, 2_OPTIONS, 1)", "setvar(VAR_A, 0x10_MASK)", "addvar(VAR_A, -3_STEPS, 1_000)", "setvar(VAR_A, K_ONE (K_HEX + 1))", "addvar(K_HEX(3), (VAR_A) K_ONE 5)",
+            'two(ascii"REX", "Is that ok?") msgbox("Is that ok?")', 'sign(braille"ABC", "ABC$", %s)' % lit(r)]
+
+SCRIPT_CONDS = ["flag(FLAG_A)", "!defeated(TRAINER_A)", "var(VAR_A) >= value(0x4001)", "random(4) == 2 && flag(FLAG_A) || specialvar(VAR_X, 7) != 0", "checkitem(ITEM_A)", "var(VAR_B) != K_ONE", "var(VAR_A) == TRUE", "var(VAR_B) != false", "!(var(VAR_A) != TRUE) && random(3) == FALSE",
+                "flag(FLAG_A) && flag(FLAG_K) || flag(FLAG_B) && flag(FLAG_K)", "random(10) == 0 || random(10) == 0", "checkitem(ITEM_A) && flag(FLAG_A)", "getpricereduction(POKENEWS_LILYCOVE) == 1", "both(VAR_TEMP_1, 2) >= 50", "flag(FLAG_A) || checkmonobedience(VAR_0x8004)", "var(VAR_A) == 0x8004", "var(VAR_B) >= 16500 || var(VAR_A) < 0x4000", "flag(FLAG_A) && var(VAR_A) != 32770"]
+
+def script_wraps(k):
+    return ["{cmd}", "if ({cond}) {{ {cmd} }}", "while ({cond}) {{ {cmd} }}", "do {{ {cmd} }} while ({cond})",
+            "switch (var(VAR_A)) {{ case 1: case K_ONE + 1: {cmd} default: x case 0x3: }}", "X%d_L(global): {cmd} goto(X%d_L)" % (k, k)]
+
 def extras(r, k):
     out = []
     for j in range(r.randint(1, 4)):
@@ -82,15 +96,9 @@ def extras(r, k):
         elif x < 0.85:
             out.append("raw `\n%s\n`" % r.choice(["X%d_raw:\n\tnop\n\tend" % k, "@ é 😀 comment", "", "\t.byte 1, 2\n\n\t.byte 3"]))
         else:
-            cmd = r.choice(["msgbox(%s)" % lit(r), "msgbox(%s, MSGBOX_X)" % fmt_call(r), "applymovement(1, moves(walk_up * 2 face_left))", "setvar(VAR_A, 0x1f)", "cmd(global)", "cmd(local)",
-                            "goto_if_set(FLAG_A, X%d_L)" % k, "getpricereduction(POKENEWS_LILYCOVE)", "warpmuted(MAP_X, 1, 2)", "cmdD8", "checkmonobedience(VAR_0x8004)", "setmonobedient(VAR_0x8004)", "mossdeepgym1(2)", "faceplayer", "waitstate", "closemessage", "playse(SE_DOOR)", "call(Common_Reward)", "goto(Ext_L)", "random(3)", "special(Foo)", "call(X%d_0)" % k, "two(%s, %s)" % (lit(r), lit(r)), "price(PRICE_OF(ITEM_A, 2), %s)" % lit(r), "mv(OBJ(1, MAP_X), moves(walk_up * 2 face_left))",
-                            "goto_if_unset(FLAG_B, Ext_L)", "setvar(VAR_A, BASE-1)", "addvar(VAR_A, 10-3)", "setvar(VAR_MASK, FLAG_A|~FLAG_B)", "setvar(VAR_MASK, FLAG_A | ~FLAG_B)", "setvar(V, BASE--OFFSET)", "setvar(V, BASE - -OFFSET)", "setvar(V, 1<<4, A>>B, X<-1)", "debuglog(\"Welcome!\" ascii\"shop: welcome\") msgbox(\"Welcome!\")", "applymovement(2, moves(walk_up * 2) moves(face_down)) applymovement(3, moves(walk_up * 2))", "END", "Return(5)", "loadword(0, \"shared\" + 2)", "loadword(0, \"Welcome!\" + 2) msgbox(\"Welcome!\")",
-                            "setobjectxyperm(LOCALID, 7 -3)", "loadbytes(TABLE_BASE -2 -1 4, (ROW) -1)", "setshopkind(mart, 2)", "initshop(mart(SHOP_ID), text, 1)", "multichoice(0, 0, 2_OPTIONS, 1)", "setvar(VAR_A, 0x10_MASK)", "addvar(VAR_A, -3_STEPS, 1_000)", "setvar(VAR_A, K_ONE (K_HEX + 1))", "addvar(K_HEX(3), (VAR_A) K_ONE 5)",
-                            'two(ascii"REX", "Is that ok?") msgbox("Is that ok?")', 'sign(braille"ABC", "ABC$", %s)' % lit(r)])
-            cond = r.choice(["flag(FLAG_A)", "!defeated(TRAINER_A)", "var(VAR_A) >= value(0x4001)", "random(4) == 2 && flag(FLAG_A) || specialvar(VAR_X, 7) != 0", "checkitem(ITEM_A)", "var(VAR_B) != K_ONE", "var(VAR_A) == TRUE", "var(VAR_B) != false", "!(var(VAR_A) != TRUE) && random(3) == FALSE",
-                            "flag(FLAG_A) && flag(FLAG_K) || flag(FLAG_B) && flag(FLAG_K)", "random(10) == 0 || random(10) == 0", "checkitem(ITEM_A) && flag(FLAG_A)", "getpricereduction(POKENEWS_LILYCOVE) == 1", "both(VAR_TEMP_1, 2) >= 50", "flag(FLAG_A) || checkmonobedience(VAR_0x8004)", "var(VAR_A) == 0x8004", "var(VAR_B) >= 16500 || var(VAR_A) < 0x4000", "flag(FLAG_A) && var(VAR_A) != 32770"])
-            wrap = r.choice(["{cmd}", "if ({cond}) {{ {cmd} }}", "while ({cond}) {{ {cmd} }}", "do {{ {cmd} }} while ({cond})",
-                             "switch (var(VAR_A)) {{ case 1: case K_ONE + 1: {cmd} default: x case 0x3: }}", "X%d_L(global): {cmd} goto(X%d_L)" % (k, k)])
+            cmd = r.choice(script_cmds(r, k))
+            cond = r.choice(SCRIPT_CONDS)
+            wrap = r.choice(script_wraps(k))
             b = wrap.format(cmd=cmd, cond=cond)
             out.append("script%s %s {\n  %s\n}" % (sc, nm, b))
     return "\n".join(out) + "\n"
@@ -284,7 +292,81 @@ def gen_boundary(rnd, n):
 _gen_mix_plain = gen_mix
 def gen_mix(rnd, n, tier="quick"):
     k = n // 3
-    return _gen_mix_plain(rnd, n - k, tier) + gen_boundary(rnd, k)
+    return _gen_mix_plain(rnd, n - k, tier) + gen_boundary(rnd, k) + gen_catalogue(rnd)
+
+def gen_catalogue(rnd):
+    """Every directed command spelling and every directed condition of the feature soup ONCE per run,
+    whatever the seed (the soup picks them at random, so a spelling added for one seeded change could
+    drop out of the quick stream again when the stream shifted - the full re-run of all kept changes
+    lost two that way). The wrapper and the partner rotate with the seed."""
+    out = []; off = rnd.randint(0, 1000)
+    cmds = script_cmds(rnd, 7); conds = SCRIPT_CONDS; wraps = script_wraps(7)
+    cwraps = [w for w in wraps if "{cond}" in w]
+    plan = [(cmds[j], conds[(j + off) % len(conds)], wraps[(j + off) % len(wraps)]) for j in range(len(cmds))]
+    plan += [(cmds[(j * 7 + off) % len(cmds)], conds[j], cwraps[(j + off) % len(cwraps)]) for j in range(len(conds))]
+    for j, (cmd, cond, wrap) in enumerate(plan):
+        src = "script X7 {\n  %s\n}\n" % wrap.format(cmd=cmd, cond=cond)
+        if j % 4 == 1: src = const_preamble(rnd) + "\n" + src
+        cfg = mix_cfg(rnd)
+        out.append(Case(compile_line(cfg, src), src, cfg, {"mix": True}))
+    # whole programs: shapes that showed a seeded change (round 14 and the full re-run of the kept changes) and that no
+    # random stream should be trusted to draw; each under both -optimize settings
+    # one construct nested 25 deep, every construct once (work and memory must stay linear in the depth)
+    for kind in ["if", "else", "while", "do", "switch", "dswitch", "pory", "paren"]:
+        inner = "core"; d = 25
+        for i in range(d):
+            if kind == "if": inner = "if (flag(FLAG_%d)) { a%d %s b%d }" % (i, i, inner, i)
+            elif kind == "else": inner = "if (flag(FLAG_%d)) { a%d } elif (flag(FLAG_X)) { } else { %s }" % (i, i, inner)
+            elif kind == "while": inner = "while (var(VAR_A) < %d) { %s if (flag(FLAG_Q)) { %s } }" % (i, inner, ["continue", "break"][i % 2])
+            elif kind == "do": inner = "do { %s } while (flag(FLAG_%d))" % (inner, i)
+            elif kind == "switch": inner = "switch (var(VAR_%d)) { case 1: %s break default: d%d if (flag(FLAG_Q)) { break } e%d }" % (i, inner, i, i)
+            elif kind == "dswitch": inner = "switch (var(VAR_%d)) { case 1: d%d default: %s }" % (i, i, inner)
+            elif kind == "pory": inner = "poryswitch(V) { A { %s } _ { %s } }" % (inner, inner if i < 3 else "z")
+            else: inner = "if (%sflag(FLAG_A) && var(VAR_B) == %d%s || flag(FLAG_C)) { %s }" % ("(" * (i + 1), i, ")" * (i + 1), inner)
+        src = "movement(local) Deep_mv { walk_up * 2 }\nmart(local) Deep_mart { ITEM_A }\ntext(local) Deep_text { \"t\" }\nscript Deep { lock %s release }\n" % inner
+        cfg = mix_cfg(rnd); cfg.switches = {"V": "A", "GAME": "RUBY", "W": "1"}; cfg.lint = False
+        out.append(Case(compile_line(cfg, src), src, cfg, {"mix": True}))
+    for j, src in enumerate(CATALOGUE_PROGRAMS):
+        for _ in range(12):
+            cfg = mix_cfg(rnd)
+            if cfg.fontdefault not in ("", "NOPE") and cfg.deffont != "NOPE": break      # format() must get as far as formatting
+        cfg.switches = {"V": "A", "GAME": "RUBY", "W": "1"}; cfg.lint = False
+        if "format(" in src: cfg.lm = True; cfg.path = cfg.path or "in.pory"       # markers next to formatted texts
+        for opt in (True, False):
+            c2 = cfg.copy(optimize=opt)
+            out.append(Case(compile_line(c2, src), src, c2, {"mix": True}))
+    return out
+
+CATALOGUE_PROGRAMS = [
+    # two inline movements with the same steps in mirrored order (content keys must be exact, not hashed)
+    "script Guards {\n  applymovement(1, moves(walk_left walk_right walk_right walk_left))\n  applymovement(2, moves(walk_right walk_left walk_left walk_right))\n"
+    "  applymovement(3, moves(walk_left walk_right * 2 walk_left))\n  applymovement(4, moves(face_up walk_right walk_left walk_left walk_right))\n  applymovement(5, moves(face_up walk_left walk_right walk_right walk_left))\n  waitmovement(0)\n}\n",
+    # format() of adjacent literals without any blank or backslash; of blank texts; of an unclosed / stray brace
+    'text Warning {\n  format("Attention!" "Intruders!")\n}\nscript S {\n  msgbox(format("Attention!"\n    "Intruders!" "Again!"))\n  msgbox(format(""))\n  message(format(ascii"  "))\n}\ntext Blank { format("   ") }\ntext BlankB { format(braille"") }\n',
+    'script S {\n  lock\n  msgbox(format("Thanks, {PLAYER"))\n  release\n}\n',
+    'script S {\n  msgbox(format("a }{ b"))\n  msgbox(format("a {b c"))\n  msgbox(format("{"))\n}\ntext T { format("x {COLOR RED}y {z") }\n',
+    # inline map scripts whose only control flow sits in the selected case of a poryswitch
+    "mapscripts Town_MapScripts {\n  MAP_SCRIPT_ON_RESUME: Town_OnResume\n  MAP_SCRIPT_ON_LOAD {\n    setmetatile(1, 2, METATILE_A, FALSE)\n    poryswitch(V) {\n      A { if (flag(FLAG_BADGE01_GET)) { setmetatile(3, 4, METATILE_B, TRUE) } }\n      _: setmetatile(5, 6, METATILE_C, TRUE)\n    }\n    special(DrawWholeMapView)\n  }\n"
+    "  MAP_SCRIPT_ON_FRAME_TABLE [\n    VAR_TEMP_0, 0: Town_OnFrame0\n    VAR_TEMP_0, 1 {\n      lockall\n      poryswitch(GAME) {\n        SAPPHIRE: setvar(VAR_TEMP_1, 9)\n        _ { while (var(VAR_TEMP_1) < 3) { addvar(VAR_TEMP_1, 1) } }\n      }\n      releaseall\n      end\n    }\n  ]\n}\n",
+    # several branching inline scripts in ONE mapscripts statement
+    "mapscripts MyMap_MapScripts {\n  MAP_SCRIPT_ON_TRANSITION { if (flag(FLAG_RAINING)) { setweather(WEATHER_RAIN) } doweather }\n  MAP_SCRIPT_ON_LOAD { if (flag(FLAG_DOOR_OPENED)) { setmetatile(5, 5, METATILE_DOOR_OPEN, FALSE) } Redraw: special(DrawWholeMapView) }\n"
+    "  MAP_SCRIPT_ON_FRAME_TABLE [\n    VAR_T, 0 { while (flag(FLAG_X)) { a } }\n    VAR_T, 1 { switch (var(VAR_Q)) { case 1: b case 2: c } d }\n  ]\n}\n",
+    # a constant defined from a constant that was already used; a name used before its const
+    "const BASE = VAR_TEMP_0 + 2\nscript First { setvar(BASE, 1) }\nconst NEXT = BASE + 1\nconst ALIAS = BASE\nscript Second { setvar(NEXT, 7) if (var(NEXT) == 4) { release } giveitem(ALIAS) }\nmart Items { NEXT ALIAS }\n",
+    "script ShowLimit { buffernumberstring(STR_VAR_1, LIMIT) msgbox(gText_Limit) end }\nconst LIMIT = 5\nscript CheckLimit {\n  setvar(VAR_TEMP_1, LIMIT)\n  if (var(VAR_TEMP_0) >= LIMIT) { addvar(VAR_TEMP_1, LIMIT + 1) }\n  release\n  end\n}\n",
+    # identifiers and continuation lines that start with a character whose low byte looks like a blank
+    "script Main {\n  goto(\u010dern\u00fd)\n  call(\u0420\u044b\u0431\u0430) // done\n  \u4e0a(\u4e0d, \u0120x)\n  msgbox(\"\u5317\u3078\\n\"\n\t\t\"\u4e0a\u308b$\")\n  msgbox(\"a\"\u300d)\n}\n",
+    # more than 16 texts in one file, exported and local text statements among the first sixteen
+    "".join("text%s T%d { \"t%d\" }\n" % (["", "(local)", "(global)"][q % 3], q, q) for q in range(19)) + "script S { msgbox(\"inline\") msgbox(T3) }\n",
+    # a label spelled like the chunk label of an EARLIER script, which is also a text's name
+    "script Intro {\n  if (flag(FLAG_MET_RIVAL)) {\n    msgbox(Intro_2)\n  }\n}\nscript Outro {\n  lock\nIntro_2:\n  release\n}\ntext Intro_2 {\n  \"Hello$\"\n}\n",
+    "text Intro_2 {\n  \"Hello$\"\n}\nscript Intro {\n  if (flag(FLAG_MET_RIVAL)) {\n    msgbox(Intro_2)\n  }\n}\nscript Outro {\n  lock\nIntro_2:\n  release\n}\n",
+    # the same sentence formatted twice with the same parameters: in a text statement, inline, and with another string type
+    'text Sign {\n  format("Welcome to the big city of signs")\n}\nscript S {\n  lock\n  msgbox(format("Welcome to the big city of signs"))\n  msgbox(format(ascii"Welcome to the big city of signs"))\n\n  msgbox(format("Welcome to the big city of signs"))\n  release\n}\ntext Sign2 {\n  format("Welcome to the big city of signs")\n}\n',
+    # the same command name with and without arguments; the same var leaf with and without value()
+    "script Demo {\n  lock\n  waitmovement\n  applymovement(OBJ_EVENT_ID_PLAYER, Demo_Moves)\n  waitmovement(0)\n  fadescreen\n  delay(16)\n  fadescreen(FADE_FROM_BLACK)\n  fadescreen()\n  release\n  end\n}\n",
+    "script CheckSlot { if (var(VAR_CHOICE) == 0x4000) { a } }\nscript CheckRaw { if (var(VAR_CHOICE) == value(0x4000)) { b } if (var(VAR_SEL) == VAR_TEMP_2 || var(VAR_SEL) == value(VAR_TEMP_2)) { c } }\n",
+]
 
 # ---------------------------------------------------------------------------------------------
 # glue stream: small programs under the option / file-shape combinations that only main.go sees
@@ -322,6 +404,12 @@ def gen_cli(rnd, n):
         y = rnd.random()
         if y < 0.15: src = rnd.choice(["\n\n", "\r\n", "  ", "\t", "﻿", "\n \n"]) + src   # the file starts with blanks / a BOM
         sw = rnd.choice([{"V": "A", "GAME": "RUBY"}, {"V": "A=B", "GAME": "RUBY=EU"}, {"V": "", "GAME": "RUBY"}, {"V": "B", "GAME": ""}, {"V": "A B", "GAME": "=RUBY"}, {}, {"V": "A"}])
+        # the bodies that look at a switch meet the unusual values in their two fixed passes, whatever the seed
+        if "poryswitch(" in src and i < 2 * len(GLUE_BODIES):
+            # (pass 0: V is cut wrongly at a second '=', GAME selects a named case, so a repeated -s must let the LAST
+            # value win - the harness passes a decoy value first when the length of the source is a multiple of three)
+            sw = [{"V": "A=B", "GAME": "RUBY"}, {"V": "A", "GAME": "RUBY=EU"}][i // len(GLUE_BODIES)]
+            while len(src.encode("utf-8")) % 3: src += " "
         cfg = Cfg(optimize=rnd.random() < 0.5, lm=rnd.random() < 0.6, lint=False,
                   path=rnd.choice(["", "", "in.pory", "a b.pory", "Route%20101.pory", "%s%d.pory", "./x.pory", "d1/d2//y.pory", "é.pory", "dir\\sub\\f.pory"]),
                   deffont=rnd.choice(["", "", "sign", "dialog", "nope"]), maxlen=rnd.choice([0, 0, 0, 40, 1000]), switches=sw,
